@@ -137,5 +137,59 @@ pub open spec fn act_qa(p: Partition) -> int { p.live_power.qa@ - p.faulty_power
         }),
 //@ end
 
+//@ fn actors/miner/src/lib.rs validate_partition_contains_sectors
+    ensures r.is_ok() <==> sectors@.subset_of(partition.sectors@),
+//@ end
+//@ fn actors/miner/src/partition_state.rs Partition::record_skipped_faults ret=res
+    ensures
+        res.is_ok() ==> ({
+            let (power_delta, new_fault_power, retracted_power, has_new) = res->Ok_0;
+            // "a sector contributes no power ... while it is skipped": skipped live non-faulty sectors become faulty, skipped recoveries are
+            // retracted, and the reported delta is exactly the change of active power
+            &&& skipped@.subset_of(old(self).sectors@)
+            &&& final(self).faults@ =~= old(self).faults@.union(skipped@.difference(old(self).terminated@))
+            &&& final(self).recoveries@ =~= old(self).recoveries@.difference(skipped@)
+            &&& power_delta.raw@ == act_raw(*final(self)) - act_raw(*old(self)) && power_delta.qa@ == act_qa(*final(self)) - act_qa(*old(self))
+            &&& final(self).sectors == old(self).sectors && final(self).terminated == old(self).terminated
+            &&& final(self).live_power.raw@ == old(self).live_power.raw@ && final(self).live_power.qa@ == old(self).live_power.qa@
+        }),
+//@ before "self . validate_state ()"
+        proof {
+            assert(retracted_recoveries@ =~= old(self).recoveries@.intersect(skipped@));
+            assert(old(self).recoveries@.difference(retracted_recoveries@) =~= old(self).recoveries@.difference(skipped@));
+            if retracted_recoveries@ =~= vstd::set::Set::<u64>::empty() { assert(old(self).recoveries@.difference(skipped@) =~= old(self).recoveries@); }
+        }
+//@ end
+//@ fn actors/miner/src/partition_state.rs Partition::declare_faults_recovered
+    ensures
+        r.is_ok() ==> sector_numbers@.subset_of(old(self).sectors@)
+            // only faulty sectors can be declared recovering; faults, terminations and active power are untouched
+            && final(self).recoveries@ =~= old(self).recoveries@.union(sector_numbers@.intersect(old(self).faults@))
+            && final(self).faults == old(self).faults && final(self).terminated == old(self).terminated && final(self).sectors == old(self).sectors
+            && final(self).unproven == old(self).unproven
+            && act_raw(*final(self)) == act_raw(*old(self)) && act_qa(*final(self)) == act_qa(*old(self)),
+//@ end
+
+//@ fn actors/miner/src/partition_state.rs Partition::record_faults ret=res
+    ensures
+        res.is_ok() ==> ({
+            let (new_faults, power_delta, new_faulty) = res->Ok_0;
+            // a declared fault: live, not yet faulty sectors become faulty (terminated ones are skipped), declared recoveries among them are retracted,
+            // and the delta reported upward is exactly the change of active power
+            &&& sector_numbers@.subset_of(old(self).sectors@)
+            &&& new_faults@ =~= sector_numbers@.difference(old(self).recoveries@).difference(old(self).terminated@).difference(old(self).faults@)
+            &&& final(self).faults@ =~= old(self).faults@.union(new_faults@)
+            &&& final(self).recoveries@ =~= old(self).recoveries@.difference(sector_numbers@)
+            &&& power_delta.raw@ == act_raw(*final(self)) - act_raw(*old(self)) && power_delta.qa@ == act_qa(*final(self)) - act_qa(*old(self))
+            &&& final(self).sectors == old(self).sectors && final(self).terminated == old(self).terminated
+        }),
+//@ before "self . validate_state ()"
+        proof {
+            assert(retracted_recoveries@ =~= old(self).recoveries@.intersect(sector_numbers@));
+            assert(old(self).recoveries@.difference(retracted_recoveries@) =~= old(self).recoveries@.difference(sector_numbers@));
+            if retracted_recoveries@ =~= vstd::set::Set::<u64>::empty() { assert(old(self).recoveries@.difference(sector_numbers@) =~= old(self).recoveries@); }
+        }
+//@ end
+
 } // verus!
 fn main() {}
